@@ -398,7 +398,7 @@ def run_timeout_rule(spec):
     a = spec['args']
     patches = {m: [tuple(x) for x in lst] for m, lst in (a.get('patches') or {}).items()} or None
     try:
-        traces = protocol.extract(make_run_cycle(a['style'], 2, patches, a.get('n', 1)))
+        traces = protocol.extract(make_run_cycle(a['style'], max(2, a.get('n', 1)), patches, a.get('n', 1)))   # failure budget: every slot must be able to fail
     except PatchDoesNotApply as e:
         return dict(status='skipped', detail=str(e))
     bad = []
